@@ -15,7 +15,7 @@ from __future__ import annotations
 
 import sys
 
-sys.setrecursionlimit(6000)
+sys.setrecursionlimit(3000)
 
 
 # Deviation switches.  All on = the reference reading (DESIGN.md 3.1).  Turning one off gives the
